@@ -24,6 +24,8 @@ pub struct RealLang {
     pub binop_float: bool,
     pub cond_int: bool,
     pub has_difficulty: bool,
+    /// TH10+ (stack) ECL
+    pub modern_ecl: bool,
     pub eosd_regs: bool,
 }
 
@@ -45,6 +47,7 @@ pub fn real_lang(game: Game, language: LanguageKey) -> RealLang {
     }
     for (r, ty) in &t.reg_types { if ty == "$" { l.int_regs.push(*r); } else if ty == "%" { l.float_regs.push(*r); } }
     // (timeline instructions carry a difficulty byte from TH08 on)
+    l.modern_ecl = language == LanguageKey::Ecl && game >= Game::Th10;
     l.has_difficulty = language == LanguageKey::Ecl || (language == LanguageKey::Timeline && game >= Game::Th08);
     l.eosd_regs = language == LanguageKey::Ecl && game == Game::Th06;
     l
@@ -435,7 +438,8 @@ pub fn gen_file(t: &mut Tape, fmt: Fmt, game: &str, body_stmts: usize) -> GenFil
 // (time, opcode, blob[, mask / arg0 / difficulty]) recorded alongside.
 
 #[derive(Clone, Debug)]
-pub struct ReqInstr { pub time: i64, pub opcode: i64, pub blob: Vec<u8>, pub mask: Option<i64>, pub arg0: Option<i64>, /// for a typed call: (signature text, requested argument values; None for non-integers)
+pub struct ReqInstr { pub time: i64, pub opcode: i64, pub blob: Vec<u8>, pub mask: Option<i64>, pub arg0: Option<i64>, /// TH10+ ECL header fields
+    pub pop: Option<i64>, pub nargs: Option<i64>, /// for a typed call: (signature text, requested argument values; None for non-integers)
     pub typed: Option<(String, Vec<Option<i64>>)> }
 
 pub const B_U16: &[i64] = &[0, 1, 2, 255, 256, 32767, 32768, 65535, 65536, 65537, 70000, 0x7fffffff];
@@ -451,6 +455,8 @@ fn raw_script(t: &mut Tape, fmt: Fmt, timeline: bool, th06_std: bool, no_mask: b
 }
 
 fn raw_script_in(t: &mut Tape, fmt: Fmt, timeline: bool, th06_std: bool, no_mask: bool, max_instrs: usize, lang: Option<&RealLang>) -> (String, Vec<ReqInstr>) {
+    // TH10+ ECL instructions also carry a stack-pop byte and an argument count
+    let modern = lang.map_or(false, |l| l.modern_ecl);
     let n = t.below(max_instrs + 1);
     let mut out = String::new();
     let mut req = vec![];
@@ -478,11 +484,11 @@ fn raw_script_in(t: &mut Tape, fmt: Fmt, timeline: bool, th06_std: bool, no_mask
                 let alts: Vec<i64> = vec![base, (base ^ 1), (base ^ 2), (base ^ 3)];
                 texts[k] = format!("{}:{}:{}:{}", alts[0], alts[1], alts[2], alts[3]);
                 out.push_str(&format!("    ins_{}({}{});\n", op, pseudo, texts.join(", ")));
-                for a in alts { let mut v2 = vals.clone(); v2[k] = Some(a); req.push(ReqInstr { time, opcode: op as i64, blob: vec![], mask, arg0: None, typed: Some((sig.print(), v2)) }); }
+                for a in alts { let mut v2 = vals.clone(); v2[k] = Some(a); req.push(ReqInstr { time, opcode: op as i64, blob: vec![], mask, arg0: None, pop: None, nargs: None, typed: Some((sig.print(), v2)) }); }
                 continue;
             }
             out.push_str(&format!("    ins_{}({}{});\n", op, pseudo, texts.join(", ")));
-            req.push(ReqInstr { time, opcode: op as i64, blob: vec![], mask, arg0: None, typed: Some((sig.print(), vals)) });
+            req.push(ReqInstr { time, opcode: op as i64, blob: vec![], mask, arg0: None, pop: None, nargs: None, typed: Some((sig.print(), vals)) });
             continue;
         }
         if t.chance(1, 3) { time = if t.chance(1, 2) { *t.pick(B_TIME) } else { t.below(200) as i64 }; out.push_str(&format!("{}:\n", time)); }
@@ -497,9 +503,12 @@ fn raw_script_in(t: &mut Tape, fmt: Fmt, timeline: bool, th06_std: bool, no_mask
         // formats whose instruction header has no mask field (MSG, STD, timelines; also TH06 ANM, reached by the line above): a requested non-zero mask cannot be stored
         else if (matches!(fmt, Fmt::Msg | Fmt::End | Fmt::Std) || timeline) && t.chance(1, 8) { let m = *t.pick(&[1i64, 0, 255, 65536]); mask = Some(m); pseudo.push(format!("@mask={}", m)); }
         if timeline && t.chance(1, 2) { let a = *t.pick(&[0i64, 1, 4, -1, 32767, 32768, 65535, -32768, -32769, 65536]); arg0 = Some(a); pseudo.push(format!("@arg0={}", a)); }
+        let (mut pop, mut nargs) = (None, None);
+        if modern && t.chance(1, 3) { let p = *t.pick(&[0i64, 1, 4, 255, 256, -1, 65536]); pop = Some(p); pseudo.push(format!("@pop={}", p)); }
+        if modern && t.chance(1, 3) { let n = *t.pick(&[0i64, 1, 2, 255, 256, -1]); nargs = Some(n); pseudo.push(format!("@nargs={}", n)); }
         pseudo.push(format!("@blob=\"{}\"", hex));
         out.push_str(&format!("    ins_{}({});\n", opcode, pseudo.join(", ")));
-        req.push(ReqInstr { time, opcode, blob, mask, arg0, typed: None });
+        req.push(ReqInstr { time, opcode, blob, mask, arg0, pop, nargs, typed: None });
     }
     (out, req)
 }
@@ -583,6 +592,20 @@ pub fn gen_c03_file(t: &mut Tape, fmt: Fmt, game: &str, many: usize) -> C03File 
                 if g == Game::Th095 { out.push_str(&format!("entry {{\n    stage: {},\n    scene: {},\n    face: {},\n    point: {},\n    text: [{}],\n}}\n\n", u16b(t), u16b(t), u32b(t), u32b(t), lines.join(", "))); }
                 else { out.push_str(&format!("entry {{\n    stage: {},\n    scene: {},\n    player: {},\n    unknown_1: {},\n    unknown_2: {},\n    point_1: {},\n    point_2: {},\n    furigana: [[{}, {}], [0, 0], [3, 4]],\n    text: [{}],\n}}\n\n", u16b(t), u16b(t), u16b(t), u32b(t), u32b(t), u32b(t), u32b(t), u32b(t), u32b(t), lines.join(", "))); }
             }
+            out
+        }
+        Fmt::Ecl if g >= Game::Th10 => {
+            // TH10+ ECL: subs of raw-blob / typed instructions (16-byte header: time i32, opcode u16, size u16, mask u16,
+            // difficulty u8, argument count u8, pop u8)
+            let nsubs = if many > 0 { many } else { 1 + t.below(3) };
+            let mut out = String::new();
+            let lang = cached_lang(game, LanguageKey::Ecl);
+            for i in 0..nsubs {
+                let (body, req) = if many > 0 { (String::new(), vec![]) } else { raw_script_in(t, fmt, false, false, false, 5, Some(&lang)) };
+                out.push_str(&format!("void {}() {{\n{}}}\n\n", if i == 0 { "main".to_string() } else { format!("sub{}", i) }, body));
+                scripts.push(req);
+            }
+            feats.push("modern-ecl".to_string());
             out
         }
         Fmt::Ecl => {
